@@ -521,6 +521,17 @@ class Recorder:
                     self.inject_copy(k, data, src=src, tag='resp')
             elif op == 'lookup':
                 self.bg.append(asyncio.ensure_future(self.lookup(st)))
+                self.last_lookup = (self.bg[-1], st)
+            elif op == 'lookup_cancel':
+                # the application gives up a lookup that is still waiting; in the same iteration of the loop a response with a
+                # record of the looked-up instance arrives
+                ll = getattr(self, 'last_lookup', None)
+                if ll is not None and not ll[0].done() and not self.closed:
+                    ll[0].cancel()
+                    nm = ll[1]['name']
+                    data = wire.build(flags=0x8400, answers=[(nm, wire.T_SRV, 0x8001, 120, (0, 0, 80, 'lost-host.local.')),
+                                                           ('lost-host.local.', wire.T_A, 0x8001, 120, bytes([10, 0, 0, 99]))])
+                    self.host.inject(data, src='10.0.0.44', tag='resp')
             elif op == 'bstart':
                 self.start_browser(st)
             elif op == 'expect_added':
